@@ -834,6 +834,11 @@ func (x *vc) evalCall(env *cenv, e *cexpr) Val {
 		v := x.eval(env, e.args[0])
 		i := x.eval(env, e.args[1])
 		return Val{T: app("rv_index", v.T, i.T), Typ: v.Typ}
+	case "calls": // calls("callee#k"): how often that call site has been executed so far in this activation (ghost counter)
+		if len(e.args) != 1 || e.args[0].op != "str" {
+			x.cfail("calls(\"callee#k\"): bad argument")
+		}
+		return Val{T: x.counter(env.st, e.args[0].name), Typ: intT}
 	case "mapat": // mapat(v, k): v.MapIndex(k) of a map-kinded reflect.Value
 		v := x.eval(env, e.args[0])
 		k := x.eval(env, e.args[1])
@@ -1138,8 +1143,18 @@ func (x *vc) globalValue(fr *frame, st *state, g *ssa.Global) (Val, bool) {
 				return v, true
 			}
 		}
-		if id, ok := call.Fun.(*ast.Ident); ok && (fr == nil || fnKey(fr.fn) != g.Pkg.Pkg.Path()+"."+id.Name) {
-			key := g.Pkg.Pkg.Path() + "." + id.Name
+		// the initialising function: of the same package (f(...)) or of another repository package (pkg.f(...))
+		id, isIdent := call.Fun.(*ast.Ident)
+		calleePkg := g.Pkg.Pkg.Path()
+		if sel, isSel := call.Fun.(*ast.SelectorExpr); isSel && info != nil {
+			if pk, ok := sel.X.(*ast.Ident); ok {
+				if pn, ok := info.Uses[pk].(*types.PkgName); ok && strings.HasPrefix(pn.Imported().Path(), modPath) {
+					id, isIdent, calleePkg = sel.Sel, true, pn.Imported().Path()
+				}
+			}
+		}
+		if ok := isIdent; ok && (fr == nil || fnKey(fr.fn) != calleePkg+"."+id.Name) {
+			key := calleePkg + "." + id.Name
 			fc := x.p.cons.get(key)
 			fn := x.p.funcs[key]
 			if fc != nil && fn != nil && len(fc.ensures) > 0 {
